@@ -104,7 +104,8 @@ impl<'a> SdesChunk<'a> {
                 ret.items.push(item);
             }
 
-            while offset < data.len() && data[offset] == 0 {
+            // skip the zero fill up to the next 32-bit boundary (and not into the next chunk)
+            while offset % 4 != 0 && offset < data.len() && data[offset] == 0 {
                 offset += 1;
             }
         }
